@@ -135,7 +135,7 @@ class _DatasetProxy:
 
 REFUSALS = [
     'both_list_and_pattern', 'pattern_without_range', 'missing_input', 'input_not_nc', 'bad_output_suffix',
-    'output_exists', 'fieldset_mismatch', 'identified_mix',
+    'output_exists', 'fieldset_mismatch', 'identified_mix', 'fieldset_mismatch_first', 'identified_mix_first',
 ]
 
 
@@ -351,7 +351,7 @@ def body(ctx: core.Ctx, case: dict):
             tag = f'refuse:{kind}'
             if want_only and want_only != tag:
                 continue
-            if kind in ('fieldset_mismatch', 'identified_mix') and len(names) < 2:
+            if kind.startswith(('fieldset_mismatch', 'identified_mix')) and len(names) < 2:
                 continue
             sub = dict(case, only=tag)
             ctx.case(sub)
@@ -418,14 +418,15 @@ def _refusal(ctx, orc, kind, w: Path, names, mc, TS, case):
         pre_existing = out / 'keep.txt'
         fix = lambda: shutil.rmtree(out)  # noqa: E731
         retry_kw = kw
-    elif kind in ('fieldset_mismatch', 'identified_mix'):
-        # replace the last input by an incompatible store at the same path; correcting = putting the good one back
-        good = w / names[-1]
+    elif kind.startswith(('fieldset_mismatch', 'identified_mix')):
+        # replace the last (or first) input by an incompatible store at the same path; correcting = putting the good one back
+        pos = 0 if kind.endswith('_first') else -1
+        good = w / names[pos]
         keep = w / 'good.keep'
         good.rename(keep)
-        desc = dict(mc['inputs'][-1]['trajs'][0])
+        desc = dict(mc['inputs'][pos]['trajs'][0])
         fd = [] if mc['layout'] == 'base' else [BULK]
-        if kind == 'fieldset_mismatch':
+        if kind.startswith('fieldset_mismatch'):
             fd = fd + [OTHER]
             desc = dict(desc, extras=dict(desc['extras'], **{sc.fs_name(OTHER): [{'seed': 1}]}))
         else:
@@ -458,6 +459,11 @@ def _refusal(ctx, orc, kind, w: Path, names, mc, TS, case):
         gc.collect()
         if pre_existing is not None and (not pre_existing.exists() or pre_existing.read_text() != 'precious'):
             orc.fail('refused.damaged_existing', kind, 'refused merge damaged the already existing output directory')
+        if kind.startswith(('fieldset_mismatch', 'identified_mix')):
+            gone = [n for n in names if not (w / n).exists()]
+            if gone:
+                orc.fail('refused.moved_inputs', kind, f'a merge refused by a validation rule ({kind}) had already moved inputs {gone}')
+                return
     if fix is not None:
         fix()
     # nothing lost (inputs at their original paths now that the cause is corrected)
@@ -484,7 +490,7 @@ def run(ctx: core.Ctx):
         '(<= 4 inputs, three layouts, identified or not, explicit/pattern naming) the file-system effects of a clean merge '
         '(mkdir, each rename, create/close of _index.nc, open and json.dump of metadata.json) are recorded and the merge is '
         're-run once per (effect, before|after) with an injected OSError: ALL crash points of the scenario; then one refusal '
-        'for each of the 8 validation rules. Oracle: inputs readable from original path or output dir; an output dir that opens '
+        'for each of the 8 validation rules (the incompatible input first and last). Oracle: inputs readable from original path or output dir; an output dir that opens '
         'as a store is complete with full id index; retry succeeds (after operator recovery for interruptions, with the same '
         'arguments and no recovery for refusals). evaluations = rule executions + crash points + refusals. Non-trivial = '
         'history with a rejected add then add then reopen / rejected in append / rejected first add; crash point after >= 1 '
